@@ -7,3 +7,4 @@ CONSTANTS
   Limits <- Eleven
   Alphabet <- LfAlphabet
   MaxDepth = 16
+  Emit = FALSE
